@@ -16,7 +16,9 @@
   Upstream's pinned tree is `⟨false, false⟩`; the repaired tree is `⟨true, true⟩`.
 
   Ghost state (not in the Go code): `Runner.holders` – the requests that were handed the runner and
-  whose finish event has not been processed yet.
+  whose finish event has not been processed yet; `Req.heldBy` – the inverse map.  A finish event
+  releases the ghost hold of the runner the request REALLY holds, while the code decrements the
+  counter of whichever runner `loaded[path]` names at that moment.
 -/
 namespace OllamaVerif.Sched
 
@@ -45,6 +47,7 @@ structure Runner where
   loading : Bool := false
   pingOk : Bool := true      -- what llama.Ping currently answers (environment-controlled)
   refMuHeld : Bool := false  -- refMu held by the load goroutine across WaitUntilRunning
+  loaderReq : ReqId := 0     -- the request whose load goroutine created this runner
   holders : List ReqId := [] -- ghost
 deriving Repr, DecidableEq
 
@@ -56,6 +59,7 @@ structure Req where
   replies : Nat := 0
   gotRunner : Option Rid := none
   gotErr : Bool := false
+  heldBy : Option Rid := none    -- ghost: the runner this request was handed and has not released yet
 deriving Repr, DecidableEq
 
 inductive PPC
@@ -90,7 +94,7 @@ structure State where
   finishWaiters : List ReqId := []
   requeuers : List Rid := []
   delayed : List ReqId := []
-  loaders : List (Rid × ReqId) := []
+  loaders : List ReqId := []   -- requests whose load goroutine is in WaitUntilRunning
   timerCbs : List Rid := []
   maxRunners : Nat := 0      -- OLLAMA_MAX_LOADED_MODELS (0 = not set yet)
   maxQueue : Nat := 512
@@ -138,6 +142,37 @@ def findVictim (s : State) : Option Rid :=
   | some r => some r
   | none => l.head?
 
+/-- outcome of one pass of processPending's inner loop for a request whose model may or may not be loaded -/
+inductive Decision
+  | reuse (r : Rid)   -- a runner for the model is in `loaded`: evaluate needsReload
+  | evict             -- make room: findRunnerToUnload
+  | load              -- start a new runner
+  | fail              -- llm.LoadModel failed: error reply
+  | delay             -- other models are still loading on the GPUs: re-queue after reschedDelay
+deriving Repr, DecidableEq
+
+/-- `true` iff this pass reaches the "no user specified MaxRunners" block -/
+def reachesAuto (s : State) (q : ReqId) : Bool :=
+  (lookup s.loaded (s.reqs q).model).isNone && !(s.maxRunners > 0 && s.loaded.length ≥ s.maxRunners)
+
+/-- the runner limit in force after this pass (the HACK that sets OLLAMA_MAX_LOADED_MODELS) -/
+def effMax (s : State) (fit : Fit) (q : ReqId) : Nat :=
+  if reachesAuto s q ∧ s.maxRunners = 0 then (if fit.reliable then 3 * fit.ngpus else fit.ngpus) else s.maxRunners
+
+/-- the decision logic of processPending's inner loop, stated outright -/
+def decideLoad (s : State) (fit : Fit) (q : ReqId) : Decision :=
+  let count := s.loaded.length
+  match lookup s.loaded (s.reqs q).model with
+  | some r => .reuse r
+  | none =>
+    if s.maxRunners > 0 ∧ count ≥ s.maxRunners then .evict
+    else if ¬ fit.loadModelOk then .fail
+    else if fit.cpu then (if count = 0 ∨ fit.cpuFits then .load else .evict)
+    else if count = 0 then .load
+    else if fit.fitsFull then .load
+    else if fit.someBusy then .delay
+    else .evict
+
 inductive Act
   -- environment
   | submit (m : ModelId) (opts : Nat) (session : Option Nat)
@@ -177,7 +212,15 @@ def replyErr (s : State) (q : ReqId) : State :=
 
 def replyRunner (s : State) (q : ReqId) (r : Rid) : State :=
   let x := s.reqs q
-  setReq s q { x with replies := x.replies + 1, gotRunner := some r }
+  setReq s q { x with replies := x.replies + 1, gotRunner := some r, heldBy := some r }
+
+/-- ghost: request `q` lets go of the runner it really holds -/
+def releaseHold (s : State) (q : ReqId) : State :=
+  match (s.reqs q).heldBy with
+  | none => s
+  | some r0 =>
+    let s := setRunner s r0 { s.runners r0 with holders := (s.runners r0).holders.erase q }
+    setReq s q { s.reqs q with heldBy := none }
 
 /-- the "trigger an expiration" region shared by processPending and expireRunner -/
 def triggerExpire (s : State) (r : Rid) : State :=
@@ -185,6 +228,17 @@ def triggerExpire (s : State) (r : Rid) : State :=
   let x := { x with session := 0 }
   let s := setRunner s r x
   if x.isZero then { s with expiredQ := s.expiredQ ++ [r] } else s
+
+/-- the finished-request region of processCompleted on the runner `loaded[path]` named:
+    `refCount--`, then expire now / arm the keep-alive timer when it reached zero -/
+def finishOn (s : State) (r : Rid) : State :=
+  let x := s.runners r
+  let x := if x.refCount = 0 then { x with wrapped := true } else { x with refCount := x.refCount - 1 }
+  let s := { s with cpc := .idle }
+  if x.isZero then
+    if x.session = 0 then { setRunner s r x.stopTimer with expiredQ := s.expiredQ ++ [r] }
+    else setRunner s r { x with timerObj := true, timerArmed := true }
+  else setRunner s r x
 
 def step (v : Variant) (s : State) : Act → Option State
   | .submit m opts session =>
@@ -195,11 +249,11 @@ def step (v : Variant) (s : State) : Act → Option State
   | .done q =>
     if q < s.nReqs ∧ ¬ (s.reqs q).done then some (setReq s q { s.reqs q with done := true }) else none
   | .loadDone r ok =>
-    match s.loaders.find? (fun p => p.1 = r) with
-    | none => none
-    | some (_, q) =>
-      let s := { s with loaders := s.loaders.filter (fun p => p.1 ≠ r) }
+    if ¬ (r < s.nRunners ∧ (s.runners r).refMuHeld) then none
+    else
       let x := s.runners r
+      let q := x.loaderReq
+      let s := { s with loaders := s.loaders.erase q }
       if ok then
         let x := { x with loading := false, refMuHeld := false, holders := q :: x.holders }
         let s := setRunner s r x
@@ -232,30 +286,18 @@ def step (v : Variant) (s : State) : Act → Option State
   | .pLookup fit =>
     match s.ppc with
     | .eval q =>
-      let m := (s.reqs q).model
-      let count := s.loaded.length
-      match lookup s.loaded m with
-      | some r => some { s with ppc := .needsReload q r }
-      | none =>
-        if s.maxRunners > 0 ∧ count ≥ s.maxRunners then
+      if fit.ngpus = 0 then none            -- the GPU list always has at least the cpu entry
+      else
+        let s1 := { s with maxRunners := effMax s fit q }
+        match decideLoad s fit q with
+        | .reuse r => some { s with ppc := .needsReload q r }
+        | .evict =>
           match findVictim s with
-          | some vic => some { s with ppc := .expire q vic }
-          | none => some s                          -- "runner to expire was nil!": retry
-        else
-          let s := if s.maxRunners = 0 then
-              { s with maxRunners := if fit.reliable then 3 * fit.ngpus else fit.ngpus } else s
-          if ¬ fit.loadModelOk then some { replyErr s q with ppc := .idle }
-          else if fit.cpu then
-            if count = 0 ∨ fit.cpuFits then some { s with ppc := .load q }
-            else match findVictim s with
-              | some vic => some { s with ppc := .expire q vic }
-              | none => some s
-          else if count = 0 then some { s with ppc := .load q }
-          else if fit.fitsFull then some { s with ppc := .load q }
-          else if fit.someBusy then some { s with ppc := .idle, delayed := q :: s.delayed }
-          else match findVictim s with
-            | some vic => some { s with ppc := .expire q vic }
-            | none => some s
+          | some vic => some { s1 with ppc := .expire q vic }
+          | none => some s1                       -- "runner to expire was nil!": retry
+        | .load => some { s1 with ppc := .load q }
+        | .fail => some { replyErr s1 q with ppc := .idle }
+        | .delay => some { s1 with ppc := .idle, delayed := q :: s1.delayed }
     | _ => none
   | .setPing r ok =>
     if r < s.nRunners then some (setRunner s r { s.runners r with pingOk := ok }) else none
@@ -299,10 +341,10 @@ def step (v : Variant) (s : State) : Act → Option State
         let r := s.nRunners
         let rq := s.reqs q
         let x : Runner := { model := rq.model, opts := rq.opts, refCount := 1, loading := true, refMuHeld := true,
-                            session := (rq.session).getD s.defaultSession }
+                            loaderReq := q, session := (rq.session).getD s.defaultSession }
         some { s with nRunners := r + 1, runners := upd s.runners r x,
                       loaded := (rq.model, r) :: removeKey s.loaded rq.model,
-                      loaders := (r, q) :: s.loaders, ppc := .idle }
+                      loaders := q :: s.loaders, ppc := .idle }
     | _ => none
   | .cTakeFinished =>
     match s.cpc, s.finishedQ with
@@ -314,19 +356,7 @@ def step (v : Variant) (s : State) : Act → Option State
     | _, _ => none
   | .cFin =>
     match s.cpc with
-    | .fin q r =>
-      let x := s.runners r
-      if x.refMuHeld then none
-      else
-        let x := if x.refCount = 0 then { x with wrapped := true } else { x with refCount := x.refCount - 1 }
-        let x := { x with holders := x.holders.erase q }
-        let s := { s with cpc := .idle }
-        if x.isZero then
-          if x.session = 0 then
-            some { setRunner s r x.stopTimer with expiredQ := s.expiredQ ++ [r] }
-          else
-            some (setRunner s r { x with timerObj := true, timerArmed := true })
-        else some (setRunner s r x)
+    | .fin q r => if (s.runners r).refMuHeld then none else some (finishOn (releaseHold s q) r)
     | _ => none
   | .cTakeExpired =>
     match s.cpc, s.expiredQ with
